@@ -151,3 +151,23 @@ def _kf_resp_hl(pid, f, impl):
         if len(unterminated) + 1 == hl:
             return True
     return False
+
+
+@classifier("rhymessage-fold-unfold-lossy")
+def _kf_fold(pid, f, impl):
+    """the re-serialised message contains a folded header line, and the header lists before and after differ only in the
+    white space inside values (a tab or a run of blanks at the fold came back as one SP)"""
+    if f.oracle != "reparse" or "field h differs" not in f.what:
+        return False
+    out = strip_ann(impl[f.group.tag(f.members[0])])
+    parts = out.split(" || ")
+    if len(parts) < 3 or not parts[1].startswith("OK "):
+        return False
+    g1 = unhex(parts[1][3:])
+    if b"\r\n " not in g1 and b"\r\n\t" not in g1:
+        return False
+    a, b = ParseResult(parts[0]).headers(), ParseResult(parts[2]).headers()
+    if len(a) != len(b) or a == b:
+        return False
+    norm = lambda v: re.sub(rb"[ \t]+", b" ", v)
+    return all(x[0] == y[0] and norm(x[1]) == norm(y[1]) for x, y in zip(a, b))
